@@ -51,6 +51,34 @@ def writer_layout(facts):
     return out
 
 
+def first_child_resolution(ft):
+    """the resolution is_first_child works with: the value compared with the first curve resolution in its regime test;
+    it must be the caller's Some(resolution) or, for None, get_resolution(index) (either as unwrap_or_else or as a match)"""
+    cands = {}
+    for b in sorted(ft.cfg.reach):
+        if ft.blocks[b]["term"]["k"] != "switch":
+            continue
+        d = ft.switch_term(b)
+        if d[0] == "bin" and d[1] in ("Lt", "Ge", "Le", "Gt") and const_int(d[3]) is not None and ft.tyof(d[2]) == "i32":
+            cands[strip_site(d[2])] = d[2]
+    if len(cands) != 1:
+        return None
+    r_t = list(cands.values())[0]
+    if r_t[0] == "call" and "unwrap_or" in r_t[1] and r_t[2][0] == ("param", 2):
+        return r_t
+    if r_t[0] == "phi":
+        leaves = list(ft.phi_operands(r_t).values())
+        ok = len(leaves) == 2
+        kinds = set()
+        for l in leaves:
+            if l[0] == "payload" and l[1] == "Some" and l[2] == ("param", 2):
+                kinds.add("some")
+            elif l[0] == "call" and l[1].endswith("::get_resolution") and l[2] == (("param", 1),):
+                kinds.add("decoded")
+        return r_t if ok and kinds == {"some", "decoded"} else None
+    return None
+
+
 def run(ctx):
     facts, run = ctx.facts, ctx.run
     run.explanation = EXPL
@@ -84,11 +112,10 @@ def run(ctx):
             r_t = ("param", 1)
         else:
             # resolution = unwrap_or_else(param2, || get_resolution(index))
-            cands = [c for c in ft.calls() if c.callee and "unwrap_or" in c.callee]
-            if len(cands) != 1:
+            r_t = first_child_resolution(ft)
+            if r_t is None:
                 run.bad("C20.L3", what, "cannot find the resolution used by is_first_child", wf)
                 continue
-            r_t = ("call", cands[0].callee, tuple(cands[0].args), (ft.path, cands[0].block))
         for lo, hi, nm in ((0, 1, "r<2"), (2, 29, "r>=2")):
             A = regime_assumptions(ft, r_t, lo, hi)
             rets = [deep_resolve(ft, t, A) for t in returns_under(ft, A)]
@@ -128,9 +155,8 @@ def run(ctx):
                 run.inst("C20.L3", "%s[%s]" % (what, nm), good, "%s works on bit %s (code field LSB = %d)" % (what, pos and pos[1], hsb), wf)
     # first child modulus below r=2: 12 for r=0, 5 for r=1
     ft = fn_terms(facts, FIRSTCH)
-    cands = [c for c in ft.calls() if c.callee and "unwrap_or" in c.callee]
-    if len(cands) == 1:
-        r_t = ("call", cands[0].callee, tuple(cands[0].args), (ft.path, cands[0].block))
+    r_t = first_child_resolution(ft)
+    if r_t is not None:
         mods = {}
         for r in (0, 1):
             A = regime_assumptions(ft, r_t, r, r)
